@@ -32,6 +32,11 @@ def hm(el, how):
         return _H(tuple(int(v) for v in el["t"]), _Q(matrix=R), src=el["src"], dst=el["dst"])
     if how == "matrix":
         rot = R
+    elif how == "rotation-4x4":        # "matrix in the shape 3x3 or 4x4": the homogeneous form of the rotation alone
+        rot = np.eye(4)
+        rot[:3, :3] = R
+    elif how == "quat-list":           # "(w, x, y, z)" as a plain list of numbers
+        rot = [float(v) for v in Quaternion(matrix=R).elements]
     else:
         q = Quaternion(matrix=R)
         rot = q if how == "quat" else Quaternion(-q.elements)
@@ -55,7 +60,7 @@ def replay_pair(arg):
     A, B, pose, out = arg
     mism = []
     n = 0
-    for how in ("quat", "negquat", "matrix", "4x4", "int-translation"):
+    for how in ("quat", "negquat", "matrix", "4x4", "int-translation", "rotation-4x4", "quat-list"):
         n += 1
         rep = {"A": A, "B": B, "pose": pose, "input_form": how, "spec": out}
         try:
